@@ -211,3 +211,17 @@ V("c18-shim-detach", "break", ["C18"], (TS, "        return old_forward(*args, *
 V("c18-utils-wrap-wrong", "break", ["C18"], (UT, "            out = ScaleTracker.track(out, scale_pair)\n", "            ScaleTracker.track(out, scale_pair)\n"))
 V("c18-keep-noclone", "keep", ["C18"], (TS, "        ctx.node_meta = node_meta  # type: ignore\n        return t.clone()", "        ctx.node_meta = node_meta  # type: ignore\n        return t"))
 V("c18-keep-abs-inline", "keep", ["C18"], (TS, "            abs_max=abs_t.max().item(),", "            abs_max=t.abs().max().item(),"))
+
+# ---------------------------------------------------------------- C09
+PA = "unit_scaling/parameter.py"
+V("c09-deepcopy-no-hooks", "break", ["C09"], (PA, "    result.__deepcopy__ = _parameter_deepcopy.__get__(result)\n    result.__reduce_ex__ = _parameter_reduce_ex.__get__(result)\n", ""), expect="_parameter_deepcopy::hooks")
+V("c09-deepcopy-hook-bound-to-self", "break", ["C09"], (PA, "    result.__deepcopy__ = _parameter_deepcopy.__get__(result)", "    result.__deepcopy__ = _parameter_deepcopy.__get__(self)"))
+V("c09-rebuild-no-reduce", "break", ["C09"], (PA, "    p.__deepcopy__ = _parameter_deepcopy.__get__(p)\n    p.__reduce_ex__ = _parameter_reduce_ex.__get__(p)\n    return p\n\n\ndef _parameter_reduce_ex", "    p.__deepcopy__ = _parameter_deepcopy.__get__(p)\n    return p\n\n\ndef _parameter_reduce_ex"), expect="_rebuild_parameter_with_state")
+V("c09-filter-type", "break", ["C09"], (PA, "        if k not in [\"__deepcopy__\", \"__reduce_ex__\"]", "        if k not in [\"__deepcopy__\", \"__reduce_ex__\", \"mup_type\"]"), expect="_parameter_reduce_ex")
+V("c09-filter-missing", "break", ["C09"], (PA, "        if k not in [\"__deepcopy__\", \"__reduce_ex__\"]", "        if k not in [\"__deepcopy__\"]"))
+V("c09-deepcopy-direct", "break", ["C09"], (PA, "    result: nn.Parameter = nn.Parameter.__deepcopy__(self, memo)\n    result.mup_type = self.mup_type\n    result.mup_scaling_depth = self.mup_scaling_depth\n", "    result: nn.Parameter = nn.Parameter.__deepcopy__(self, memo)\n    result.mup_type = self.mup_type\n"))
+V("c09-depth-reset", "break", ["C09"], (PA, "    result.mup_scaling_depth = self.mup_scaling_depth\n", "    result.mup_scaling_depth = None\n"))
+V("c09-param-no-reduce", "break", ["C09"], (PA, "    p.__reduce_ex__ = _parameter_reduce_ex.__get__(p)\n    # Note", "    # Note"))
+V("c09-reduce-default-rebuild", "break", ["C09"], (PA, "        _rebuild_parameter_with_state,\n        (self.data", "        torch._utils._rebuild_parameter_with_state,\n        (self.data"))
+V("c09-transform-no-deepcopy", "break", ["C09", "C17"], ("unit_scaling/transforms/utils.py", "    module = copy.deepcopy(module)\n", "    module = copy.copy(module)\n"))
+V("c09-keep-setattr", "keep", ["C09"], (PA, "    result.mup_type = self.mup_type\n    result.mup_scaling_depth = self.mup_scaling_depth\n", "    for _k in (\"mup_type\", \"mup_scaling_depth\"):\n        setattr(result, _k, getattr(self, _k))\n"))
